@@ -39,6 +39,15 @@ func ParseConfig() (*Config, error) {
 		return nil, fmt.Errorf("failed to load config (%s): %v", envPath, err)
 	}
 
+	// The embedded sections are only allocated by the decoder when the file
+	// sets at least one of their keys.
+	if c.ZMQConfig == nil {
+		c.ZMQConfig = &ZMQConfig{}
+	}
+	if c.RegConfig == nil {
+		c.RegConfig = &RegConfig{}
+	}
+
 	err = c.ParseBlocklists()
 	if err != nil {
 		return nil, fmt.Errorf("failed to load config (%s): %w", envPath, err)
